@@ -35,6 +35,22 @@ def mutate(rng, s):
                       for a in s.acts)      # (siblings of a raising callback: unconstrained, DESIGN 3.2)
         if not raising and not any(a[5] for a in s.acts if a[1] <= 0 <= a[2]):
             s.acts.insert(0, (c.id, 0, 0, 0, None, [rng.choice(evs)]))
+    elif ent and evs and s.cur0 is None and rng.random() < 0.25:
+        # the first activation *fails*: an enter callback of the start state raises (after the state was stored); the
+        # machine is used on — activated again, sent events: the activation is not repeated, nothing stale is left
+        init = [k for k, st in enumerate(s.states) if st.initial]
+        start_k = init[0] if init else None
+        if s.start is not None:
+            ks = [k for k, st in enumerate(s.states) if st.val == s.start]
+            start_k = ks[0] if ks else None
+        mine = [c for c in ent if c.at == ("s", start_k) or c.style == "conv" and c.name == "on_enter_state"]
+        sib = gen.sibling_map(s)
+        cbm = {x.id: x for x in s.cbs}
+        mine = [c for c in mine if all(cbm[x].yields == 0 for x in sib.get(c.id, ()) if x != c.id)]
+        if mine and start_k is not None and not any(a[1] <= 0 <= a[2] for a in s.acts):
+            c = rng.choice(mine)
+            s.acts.insert(0, (c.id, 0, 0, 0, rng.randint(1, 19), []))
+            s.ops = list(s.ops) + [("activate",), ("send", rng.choice(evs)), ("send", rng.choice(evs))]
 
 
 def run(ctx):
